@@ -515,6 +515,22 @@ func main() {
 		}
 		return
 	}
+	if len(cfg.Args) > 0 && cfg.Args[0] == "cli" {
+		res := runMain(cfg.Args[1:], cliVFS(), nil)
+		fmt.Printf("exit=%d panic=%q\nstdout:\n%s\nstderr:\n%s\n", res.exit, res.panic, res.stdout, res.stderr)
+		return
+	}
+	if len(cfg.Args) > 0 && cfg.Args[0] == "timing" {
+		devTiming()
+		return
+	}
+	if len(cfg.Args) > 0 && cfg.Args[0] == "semgen" {
+		r := hlib.NewRand(cfg.Seed)
+		for i := 0; i < 40; i++ {
+			fmt.Printf("%s\n", semProgram(r.Fork(), semFlavour(i%4)))
+		}
+		return
+	}
 	if len(cfg.Args) > 0 && cfg.Args[0] == "gen" {
 		r := hlib.NewRand(cfg.Seed)
 		for i := 0; i < 40; i++ {
@@ -533,12 +549,35 @@ func main() {
 	}
 
 	r := hlib.NewRand(cfg.Seed)
-	nRT, nRW, nCtor, nEv, nCli, nRepl := 6000, 2400, 1200, 3000, 160, 30
-	if cfg.Thorough() {
-		nRT, nRW, nCtor, nEv, nCli, nRepl = 60000, 20000, 6000, 30000, 1200, 200
+	nRT, nRW, nCtor, nEv, nCli, nRepl := 4000, 1500, 800, 500, 60, 8
+	if cfg.Thorough() { // per shard
+		nRT, nRW, nCtor, nEv, nCli, nRepl = 30000, 8000, 3000, 5000, 500, 80
 	}
 
-	rn.fixed()
+	// developer switch: C11_ONLY=rt,rw,ctor,ev,cli,repl restricts the generated part (never set by ./check)
+	only := os.Getenv("C11_ONLY")
+	want := func(k string) bool { return only == "" || strings.Contains(","+only+",", ","+k+",") }
+	if !want("rt") {
+		nRT = 0
+	}
+	if !want("rw") {
+		nRW = 0
+	}
+	if !want("ctor") {
+		nCtor = 0
+	}
+	if !want("ev") {
+		nEv = -1
+	}
+	if !want("cli") {
+		nCli = -1
+	}
+	if !want("repl") {
+		nRepl = -1
+	}
+	if only == "" || want("fixed") {
+		rn.fixed()
+	}
 
 	var rts []rtCase
 	for i := 0; i < nRT; i++ {
